@@ -10,7 +10,12 @@ static std::string oracle(const Case& c) {
     Evidence& ev = W().ev; std::vector<ops::Op> seq = ops::from_hex(c.get("ops"));
     ops::Machine m; m.fl.check_model = false; m.fl.check_routing = false; m.fl.check_ledger = true; m.fl.allow_inject = c.u("inject", 0) != 0;
     m.start(m.fl.allow_inject);
+    std::vector<std::string> t1, t2; m.log = &t1;
     std::string r = m.run(seq); if (!r.empty()) return r + "   sequence: " + ops::describe(seq);
+    // freshly allocated memory is never assumed to be zero: the same sequence with zero-filled fresh blocks must give the same transcript
+    // (statuses, store image of every live seed after every step, KDF arguments of keygen/crypt)
+    { ops::Machine z; z.fl = m.fl; z.garbage_override = 0x00; z.log = &t2; z.start(z.fl.allow_inject); std::string r2 = z.run(seq); if (!r2.empty()) return r2 + " (zero-filled allocator)   sequence: " + ops::describe(seq);
+      for (size_t i = 0; i < t1.size() && i < t2.size(); i++) if (t1[i] != t2[i]) return "results depend on the content of freshly allocated memory: step " + std::to_string(i + 1) + " gives [" + t1[i].substr(0, 300) + "] with garbage-filled blocks and [" + t2[i].substr(0, 300) + "] with zero-filled blocks   sequence: " + ops::describe(seq); }
     ev.eval(); ev.count("ops-executed", seq.size()); bool nt = m.saw_alloc_fail;
     for (auto& p : m.cls) { if (p.first.rfind("cell:", 0) == 0) { ev.count(p.first, p.second); if (p.first.find("UNSUPPORTED") != std::string::npos || p.first.find("FORMAT") != std::string::npos || p.first.find("CHECKSUM") != std::string::npos) nt = true; } else if (p.first.find("MEMORY") != std::string::npos) ev.count(p.first, p.second); }
     if (m.saw_alloc_fail) ev.count("seq:allocation-failure-observed");
@@ -28,7 +33,7 @@ static void run() {
         for (int armed = 0; armed < 2; armed++) for (int failpos = 1; failpos <= (armed ? 3 : 1); failpos++) for (int variant = 0; variant < 40; variant++) {
             std::vector<std::vector<Op>> scripts;
             Op arm{ARM_FAIL, (uint8_t)(1u << (failpos - 1)), 0, 0}; uint8_t L = (uint8_t)variant, cc = (uint8_t)(variant * 8);
-            auto with = [&](std::vector<Op> pre, Op target) { if (armed) pre.push_back(arm); pre.push_back(target); pre.push_back(Op{FREE_NULL, 0, 0, 0}); pre.push_back(Op{CREATE, 0, 3, 1}); pre.push_back(Op{ENCODE, 3, L, 1}); scripts.push_back(pre); };
+            auto with = [&](std::vector<Op> pre, Op target) { if (armed) pre.push_back(arm); pre.push_back(target); pre.push_back(Op{KEYGEN, 1, 3, 0}); pre.push_back(Op{FREE_NULL, 0, 0, 0}); pre.push_back(Op{CREATE, 0, 3, 1}); pre.push_back(Op{ENCODE, 3, L, 1}); scripts.push_back(pre); };
             std::vector<Op> src = {Op{ENABLE, 1, 0, 0}, Op{CREATE, 1, 0, (uint8_t)variant}};
             std::vector<Op> low = src; low.push_back(Op{ENABLE, 0, 0, 0});
             with({Op{ENABLE, 1, 0, 0}}, Op{CREATE, 1, 1, 0}); with({Op{ENABLE, 0, 0, 0}}, Op{CREATE, 1, 1, 0});
@@ -39,7 +44,7 @@ static void run() {
         W().ev.enumerated["cell scripts: entry point x outcome x {no failure, 1st/2nd/3rd request fails} x 40 language/coin variants"] += done;
     }
     // (2) random sequences with frequent failure schedules
-    seqgen::Weights wt{{inject_ok ? 1 : 0, 3, 10, 10, 10, 10, 4, 3, 1, 1, 1, 6, 2, 10}};
+    seqgen::Weights wt{{inject_ok ? 1 : 0, 3, 10, 10, 10, 10, 4, 3, 1, 5, 1, 6, 2, 10}};
     rc_run("c15-sequences", a.n(60000, 600000), 100, [&]() {
         auto seq = *seqgen::sequence(wt, *rc::gen::element(6, 15, 40));
         Case c; c.set("ops", ops::to_hex(seq)); c.set("inject", inject_ok ? 1 : 0); c.set("gen", "random-walk"); set_current(c);
